@@ -452,6 +452,108 @@ theorem ensemble_step_eq_solve [LE E] [DecidableLE E] (step : M → M) (done : M
     · rw [List.getElem?_eq_none hi]; rfl
   exact ⟨h, by rw [h]⟩
 
+/-! ## ensembles: the members' `_live` flag and the deferred decoration
+
+`ensemble_step_eq_solve` above takes "a `Step` on a terminated member does nothing" as the definition of a member
+step (`stepIfLive`).  In the code that is the joint effect of three things - `Finalize` switching `_live` off,
+`_bootstrap_objective` re-decorating a solver that is not live (and a decoration changes the state: Nelder-Mead
+rebuilds its simplex under strict ranges), and the `_live` toggle of the ensemble's mapped `_step` / `_solve` - which
+Model/Schedule.lean (`mStep`, `mSolve`, `toggled`) spells out.  The theorems below are for EVERY member algorithm
+(`MAlg`: any decoration, iteration, `Finalize` and termination verdict). -/
+
+variable {S : Type}
+
+/-- **a finished member (finalized, terminated, with a step record) is left exactly as it is** by the mapped `_step`
+of an ensemble `Step` and by the mapped `_solve` of an ensemble `Solve` - no decoration, no iteration - whatever
+a decoration would do to it -/
+theorem ens_finished_member_untouched (a : MAlg S) (m : Mem S) (fuel : Nat) (h : Finished a m) :
+    ensMemberStep a m = m ∧ ensMemberSolve a (fuel + 1) m = (m, true) :=
+  ⟨ensMemberStep_finished a m h, ensMemberSolve_finished a fuel m h⟩
+
+/-- **step-wise mode = run-to-completion mode, with the `_live` flag and the decoration modelled**: `k` ensemble
+`Step`s leave the members that one run-to-completion `Solve` leaves (state, flag, number of decorations and of
+iterations), hence the same reported best, once every member's `Solve` has come back with a message within `fuel ≤ k`
+`Step`s.  Hypotheses: an iteration that stops leaves a step record (`hrec`); the members are ones an ensemble can
+hold (`Regular`: live, or not terminated, or finished). -/
+theorem ens_live_step_eq_solve [LE E] [DecidableLE E] (a : MAlg S)
+    (hrec : ∀ s, a.term (a.iter s) = true → a.started (a.fin (a.iter s)) = true)
+    (energy : Mem S → E) (ms : List (Mem S)) (fuel k : Nat)
+    (hr : ∀ m ∈ ms, Regular a m) (hs : ∀ m ∈ ms, (ensMemberSolve a fuel m).2 = true) (hk : fuel ≤ k) :
+    (ensStepL a)^[k] ms = ensSolveL a fuel ms ∧
+    bestOf energy ((ensStepL a)^[k] ms) = bestOf energy (ensSolveL a fuel ms) := by
+  have h : (ensStepL a)^[k] ms = ensSolveL a fuel ms := by
+    rw [ensStepL_iter]
+    unfold ensSolveL
+    apply List.map_congr_left
+    intro m hm
+    exact member_steps_eq_solve a hrec fuel m (hr m hm) (hs m hm) k hk
+  exact ⟨h, by rw [h]⟩
+
+/-- **mixed driving**: `j` ensemble `Step`s followed by a run-to-completion `Solve` end where the `Solve` alone ends -/
+theorem ens_steps_then_solve (a : MAlg S)
+    (hrec : ∀ s, a.term (a.iter s) = true → a.started (a.fin (a.iter s)) = true)
+    (ms : List (Mem S)) (j fuel fuel' : Nat)
+    (hr : ∀ m ∈ ms, Regular a m) (hs : ∀ m ∈ ms, (ensMemberSolve a fuel m).2 = true)
+    (hs' : ∀ m ∈ ms, (ensMemberSolve a fuel' ((ensMemberStep a)^[j] m)).2 = true) :
+    ensSolveL a fuel' ((ensStepL a)^[j] ms) = ensSolveL a fuel ms := by
+  rw [ensStepL_iter]
+  unfold ensSolveL
+  rw [List.map_map]
+  apply List.map_congr_left
+  intro m hm
+  show (ensMemberSolve a fuel' ((ensMemberStep a)^[j] m)).1 = (ensMemberSolve a fuel m).1
+  have h1 := member_steps_eq_solve a hrec fuel m (hr m hm) (hs m hm) (fuel + fuel' + j) (by omega)
+  have h2 := member_steps_eq_solve a hrec fuel' _ (regular_steps a hrec m (hr m hm) j) (hs' m hm) (fuel + fuel') (by omega)
+  rw [← h2, ← h1, ← Function.iterate_add_apply]
+
+/-- **a member is decorated once**: the first mapped `_step` of a fresh member (not live, not terminated) decorates
+its objective, no later one does - however many ensemble `Step`s follow, before and after it has stopped.
+Hypothesis `hfin`: `Finalize` does not revoke the stop and an iteration that stops leaves a step record. -/
+theorem ens_decorates_once (a : MAlg S)
+    (hfin : ∀ s, a.term (a.iter s) = true → a.term (a.fin (a.iter s)) = true ∧ a.started (a.fin (a.iter s)) = true)
+    (m : Mem S) (hl : m.live = false) (ht : a.term m.st = false) (k : Nat) :
+    ((ensMemberStep a)^[k + 1] m).ndec = m.ndec + 1 := by
+  rw [Function.iterate_succ_apply]
+  have h := fresh_step a hfin m hl ht
+  rw [(settled_steps a hfin _ h.1 k).2, h.2]
+
+/-- a member that is live or finished is never decorated again by ensemble `Step`s -/
+theorem ens_settled_not_redecorated (a : MAlg S)
+    (hfin : ∀ s, a.term (a.iter s) = true → a.term (a.fin (a.iter s)) = true ∧ a.started (a.fin (a.iter s)) = true)
+    (m : Mem S) (h : m.live = true ∨ Finished a m) (k : Nat) : ((ensMemberStep a)^[k] m).ndec = m.ndec :=
+  (settled_steps a hfin m h k).2
+
+/-- a Nelder-Mead-like member for the witness: state = (spread of the simplex, generations); an iteration halves the
+spread; the termination is CandidateRelativeTolerance-like (spread <= 1); the decoration rebuilds the simplex
+(spread 4) once `generations > 0` - `NelderMeadSimplexSolver._decorate_objective` under strict ranges -/
+def nmLike : MAlg (Nat × Nat) :=
+  { dec := fun s => if s.2 > 0 then (4, s.2) else s, iter := fun s => (s.1 / 2, s.2 + 1), fin := id,
+    term := fun s => decide (s.1 ≤ 1), started := fun s => decide (s.2 > 0) }
+
+/-- **what the `_live` toggle is there for** (kernel-checked witness): two members that stop at different iterations
+(after 3 and after 1).  With the toggle, 3 ensemble `Step`s = `Solve`.  WITHOUT it (`_step` = `solver.Step()` alone)
+the member that stopped first is re-decorated by the next ensemble `Step`, its rebuilt simplex no longer satisfies the
+termination, and it resumes: step-wise and run-to-completion results differ. -/
+theorem ens_untoggled_witness :
+    (ensStepL nmLike)^[3] [{ st := (8, 0), live := false }, { st := (2, 0), live := false }]
+        = ensSolveL nmLike 5 [{ st := (8, 0), live := false }, { st := (2, 0), live := false }] ∧
+    ([{ st := (8, 0), live := false }, { st := (2, 0), live := false }].map (ensMemberStepBare nmLike)^[3])
+        = [{ st := (1, 3), live := false, ndec := 1, niter := 3 }, { st := (1, 3), live := false, ndec := 2, niter := 3 }] ∧
+    ensSolveL nmLike 5 [{ st := (8, 0), live := false }, { st := (2, 0), live := false }]
+        = [{ st := (1, 3), live := false, ndec := 1, niter := 3 }, { st := (1, 1), live := false, ndec := 1, niter := 1 }] := by
+  decide
+
+/-- non-vacuity of `ens_live_step_eq_solve`: its hypotheses hold for the witness members -/
+example : (∀ s, nmLike.term (nmLike.iter s) = true → nmLike.started (nmLike.fin (nmLike.iter s)) = true) ∧
+    (∀ m ∈ [({ st := (8, 0), live := false } : Mem (Nat × Nat)), { st := (2, 0), live := false }],
+      Regular nmLike m ∧ (ensMemberSolve nmLike 5 m).2 = true) := by
+  refine ⟨fun s _ => by simp [nmLike], ?_⟩
+  intro m hm
+  simp only [List.mem_cons, List.mem_nil_iff, or_false] at hm
+  rcases hm with rfl | rfl
+  · exact ⟨Or.inl (by unfold Plain; decide), by decide⟩
+  · exact ⟨Or.inl (by unfold Plain; decide), by decide⟩
+
 /-- non-vacuity: three countdown members, a schedule that interleaves them unevenly -/
 example : runSched (fun n : Nat => n - 1) (fun n => n == 0) [3, 1, 2] [2, 0, 0, 1, 2, 0, 1, 2, 0]
     = [3, 1, 2].map (runToEnd (fun n : Nat => n - 1) (fun n => n == 0) 5) := by decide
